@@ -1,0 +1,23 @@
+//go:build verif
+
+package miner
+
+import (
+	"context"
+
+	"0chain.net/chaincore/block"
+	"0chain.net/chaincore/round"
+	"0chain.net/chaincore/threshold/bls"
+)
+
+// Thin wrappers for the verification harness (/verif, properties C33 and C31). No logic.
+
+// VerifVerifyVRFShare calls the unexported verifyVRFShare.
+func VerifVerifyVRFShare(r *Round, vrfs *round.VRFShare, blsMsg string, dkg *bls.DKG) bool {
+	return verifyVRFShare(r, vrfs, blsMsg, dkg)
+}
+
+// VerifProcessVerifyBlock calls the unexported processVerifyBlock.
+func (mc *Chain) VerifProcessVerifyBlock(ctx context.Context, b *block.Block) error {
+	return mc.processVerifyBlock(ctx, b)
+}
